@@ -7,6 +7,28 @@ HERE = os.path.dirname(os.path.dirname(os.path.abspath(__file__)))
 CMD = "PYTHONPATH=/repo/src PYTHONHASHSEED=0 /venv/bin/python harness/check.py %s --tier %s"
 
 CHECKS = {
+    "C16": dict(
+        engine="E2-handler",
+        technique="Coq proof (print/scan round trip of the brace scanner: render(print segs) = '[deep] ' ++ texts, for all segment lists and all frame states; literal templates; one message per collected hit) + in-Coq correspondence with the real log action and with CPython's string.Formatter scanner",
+        text="7 Coq theorems over Template.v: for every list of segments (any literal characters incl. braces, fields with any "
+             "brace-free expression) and every evaluation function, rendering the printed template gives '[deep] ' followed "
+             "by the literals and, in place, each field's value text or error text; brace-free templates are emitted as "
+             "they are; one message per collected hit; labels each in its own place; LOG watches distribute over the fields "
+             "in order. Tied to the code by generated templates x frame states through the real handler (log-only and "
+             "collecting tracepoints), message / snapshot.log_msg compared inside Coq, scanner compared with CPython's.",
+        note="Trusted: Coq kernel+VM; harness; field expressions without colon / exclamation mark / brace (format specs and "
+             "conversions are outside the statement); CPython's Formatter; labels and LOG watches are checked by the oracle.",
+        design="5-C16"),
+    "C17": dict(
+        engine="E2-handler",
+        technique="Coq proof (dispatch membership iff, exactly-once decomposition and |metrics| x |processors| count, call fields, value defaulting, no-processor no-budget) + in-Coq correspondence with the real metric action",
+        text="6 Coq theorems over Metric.v: on a permitted hit the calls are exactly one per (definition, processor) pair, those "
+             "of one definition being one per processor in order; operation = lower-cased type, namespace defaults to 'deep', "
+             "name/help/unit passed on; value = the expression's number, else 1 (absent, non-numeric, failing); with no "
+             "processor nothing is reported and the stats are unchanged. Tied to the code by generated definition lists x "
+             "0-3 recording processors x 1-3 hits through the real handler; calls in order and fire count compared in Coq.",
+        note="Trusted: Coq kernel+VM; harness; numbers compared by printed text; processors that fail are C20.",
+        design="5-C17"),
     "C03": dict(
         engine="E2-handler",
         technique="Coq proof (location matching iff-characterisations, soundness/completeness/silence/independence of the per-event action selection, merge keeps actions up to permutation) + in-Coq correspondence with the real handler on synthetic events, poll responses and live multi-threaded programs",
@@ -160,8 +182,8 @@ def main():
         engines=[
             dict(name="E1-collector", path="coq/theories/Collector.v coq/theories/CollectorProofs.v coq/theories/Frames.v harness/lib/e1.py harness/lib/objgen.py harness/props/c02.py harness/props/c05.py harness/props/c06.py harness/props/c07.py",
                  serves_properties=["C02", "C05", "C06", "C07"], kind_free_text="Gallina work-list collector over abstract heaps; step invariants; in-Coq correspondence on generated object graphs"),
-            dict(name="E2-handler", path="coq/theories/Limiter.v coq/theories/LimiterProofs.v coq/theories/Cond.v harness/lib/e2.py harness/props/c04.py harness/props/c10.py coq/theories/Match.v coq/theories/MatchProofs.v coq/theories/Callbacks.v coq/theories/CallbacksProofs.v harness/props/c03.py harness/props/c15.py",
-                 serves_properties=["C03", "C04", "C10", "C15"], kind_free_text="Gallina models of the rate limiter (sequential and interleaved), condition gate and scope; real TriggerHandler with recording plugins, virtual clock, synthetic frames, forced schedules"),
+            dict(name="E2-handler", path="coq/theories/Limiter.v coq/theories/LimiterProofs.v coq/theories/Cond.v harness/lib/e2.py harness/props/c04.py harness/props/c10.py coq/theories/Match.v coq/theories/MatchProofs.v coq/theories/Callbacks.v coq/theories/CallbacksProofs.v harness/props/c03.py harness/props/c15.py coq/theories/Template.v coq/theories/TemplateProofs.v coq/theories/Metric.v coq/theories/MetricProofs.v harness/props/c16.py harness/props/c17.py",
+                 serves_properties=["C03", "C04", "C10", "C15", "C16", "C17"], kind_free_text="Gallina models of the rate limiter (sequential and interleaved), condition gate and scope; real TriggerHandler with recording plugins, virtual clock, synthetic frames, forced schedules"),
             dict(name="E4-stores", path="coq/theories/Attrs.v coq/theories/AttrsProofs.v coq/theories/Config.v harness/props/c18.py harness/props/c19.py",
                  serves_properties=["C18", "C19"], kind_free_text="Gallina models of the attribute store, resources, configuration resolution; proofs; in-Coq correspondence"),
         ],
